@@ -1,6 +1,8 @@
 package main
 
 import (
+	"fmt"
+
 	"golang.org/x/tools/go/ssa"
 )
 
@@ -22,6 +24,87 @@ func (x *Exec) stdlib(fr *Frame, ins ssa.Instruction, fn *ssa.Function, args []V
 		sb := x.bytesToStr(st, args[1].(*Term))
 		lt := x.strLt(sa, sb)
 		return ts.Ite(lt, ts.BV(^uint64(0), 64), ts.Ite(ts.Eq(sa, sb), ts.BV(0, 64), ts.BV(1, 64))), true
+	case "encoding/binary.PutVarint", "encoding/binary.PutUvarint":
+		// Trusted: writes n = len(encoding(x)) bytes, 1 <= n <= 10, at buf[0:n] (panics if buf is shorter),
+		// and binary.Varint/Uvarint on a slice starting at the same place and at least n long returns (x, n).
+		// The encoding itself is abstract: a ghost component remembers (array, offset) -> (kind, value, n);
+		// it is assumed that the encoded bytes are not overwritten before they are decoded.
+		kind := uint64(1)
+		if fn.Name() == "PutUvarint" {
+			kind = 2
+		}
+		x.note("trusted: binary.%s / binary.%s are mutually inverse on the bytes written (abstract encoding of 1..10 bytes; encoded bytes not overwritten before decoding)", fn.Name(), map[uint64]string{1: "Varint", 2: "Uvarint"}[kind])
+		buf := args[0].(*Term)
+		v := args[1].(*Term)
+		n := x.w.Fun("varint_len"+fmt.Sprint(kind), SBV(64), v)
+		x.assume(ts.And(x.w.bvule(ts.BV(1, 64), n), x.w.bvule(n, ts.BV(10, 64))))
+		if kind == 1 {
+			// values that fit 32 bits need at most 5 bytes (MaxVarintLen32)
+			fits32 := ts.Eq(ts.App("(_ sign_extend 32)", SBV(64), ts.App("(_ extract 31 0)", SBV(32), v)), v)
+			x.assume(ts.Implies(fits32, x.w.bvule(n, ts.BV(5, 64))))
+		}
+		x.safety(st, "index", ins, "binary."+fn.Name()+"(buf)", x.w.bvule(n, x.w.sLen(buf)))
+		cn, cs := "E_"+sanitize(string(SBV(8))), SArr(SInt, SArr(SBV(64), SBV(8)))
+		h := x.comp(st, cn, cs)
+		row := ts.Select(h, x.w.sArr(buf))
+		nr := x.w.Fresh("varintrow", SArr(SBV(64), SBV(8)))
+		k := ts.Bound("k", SBV(64))
+		lo := x.w.sOff(buf)
+		hi := x.bvOp("bvadd", lo, n)
+		x.assume(ts.Quant("forall", []*Term{k}, ts.Implies(ts.Or(x.w.bvult(k, lo), x.w.bvule(hi, k)), ts.Eq(ts.Select(nr, k), ts.Select(row, k)))))
+		st.heap[cn] = ts.Store(h, x.w.sArr(buf), nr)
+		gs := SArr(SInt, SArr(SBV(64), SBV(64)))
+		for _, g := range []struct {
+			name string
+			val  *Term
+		}{{"Vkind", ts.BV(kind, 64)}, {"Vval", v}, {"Vlen", n}} {
+			gh := x.comp(st, g.name, gs)
+			st.heap[g.name] = ts.Store(gh, x.w.sArr(buf), ts.Store(ts.Select(gh, x.w.sArr(buf)), lo, g.val))
+		}
+		return n, true
+	case "encoding/binary.Varint", "encoding/binary.Uvarint":
+		kind := uint64(1)
+		if fn.Name() == "Uvarint" {
+			kind = 2
+		}
+		buf := args[0].(*Term)
+		gs := SArr(SInt, SArr(SBV(64), SBV(64)))
+		at := func(name string) *Term {
+			return ts.Select(ts.Select(x.comp(st, name, gs), x.w.sArr(buf)), x.w.sOff(buf))
+		}
+		known := ts.And(ts.Eq(at("Vkind"), ts.BV(kind, 64)), x.w.bvule(at("Vlen"), x.w.sLen(buf)))
+		rv := x.w.Fresh("varint_v", SBV(64))
+		rn := x.w.Fresh("varint_n", SBV(64))
+		x.assume(ts.Implies(known, ts.And(ts.Eq(rv, at("Vval")), ts.Eq(rn, at("Vlen")))))
+		// in every case: n <= len(buf), n >= -10 (n <= 0 reports an error)
+		x.assume(ts.And(x.w.bvsle(rn, x.w.sLen(buf)), x.w.bvsle(ts.BV(^uint64(9), 64), rn), x.w.bvsle(rn, ts.BV(10, 64))))
+		return Tuple{rv, rn}, true
+	case "strconv.AppendInt", "strconv.AppendUint", "strconv.AppendFloat", "strconv.AppendBool",
+		"strconv.AppendQuote", "strconv.AppendQuoteRune", "strconv.AppendQuoteToASCII", "strconv.AppendQuoteRuneToASCII",
+		"unicode/utf8.AppendRune":
+		// Trusted: behaves like append(dst, <some bytes>...): in place when there is room, else a fresh array.
+		x.note("trusted: %s appends between 1 and 4096 bytes to dst like the append builtin (contents unspecified)", name)
+		dst := args[0].(*Term)
+		k := x.w.Fresh("appended", SBV(64))
+		x.assume(ts.And(x.w.bvule(ts.BV(1, 64), k), x.w.bvule(k, ts.BV(4096, 64))))
+		cn, cs := "E_"+sanitize(string(SBV(8))), SArr(SInt, SArr(SBV(64), SBV(8)))
+		h := x.comp(st, cn, cs)
+		oldLen, oldCap := x.w.sLen(dst), x.w.sCap(dst)
+		newLen := x.bvOp("bvadd", oldLen, k)
+		fits := x.w.bvule(newLen, oldCap)
+		r := x.allocRef(st, "strconvappend")
+		newCap := x.w.Fresh("appcap", SBV(64))
+		x.assume(ts.And(x.w.bvule(newLen, newCap), x.w.bvult(newCap, x.w.existingLenBound())))
+		arr := ts.Ite(fits, x.w.sArr(dst), r)
+		off := x.w.sOff(dst)
+		oldRow := ts.Select(h, x.w.sArr(dst))
+		nr := x.w.Fresh("approw", SArr(SBV(64), SBV(8)))
+		kk := ts.Bound("k", SBV(64))
+		lo := x.bvOp("bvadd", off, oldLen)
+		hi := x.bvOp("bvadd", off, newLen)
+		x.assume(ts.Quant("forall", []*Term{kk}, ts.Implies(ts.Or(x.w.bvult(kk, lo), x.w.bvule(hi, kk)), ts.Eq(ts.Select(nr, kk), ts.Select(oldRow, kk)))))
+		st.heap[cn] = ts.Store(h, arr, nr)
+		return x.w.mkSlice(arr, off, newLen, ts.Ite(fits, oldCap, newCap)), true
 	case "fmt.Errorf", "errors.New":
 		x.note("trusted: %s returns a non-nil error", name)
 		r := x.w.Fresh("err_"+fn.Name(), SIface)
